@@ -91,6 +91,13 @@ def parse(text):
     def form():
         nonlocal pos
         ws()
+        if text.startswith("#[", pos):            # bracket string: one atom
+            d = text.index("[", pos + 2)
+            closer = "]" + text[pos + 2:d] + "]"
+            j = text.index(closer, d + 1) + len(closer)
+            s = text[pos:j]
+            pos = j
+            return s
         for op in ("#(", "#{", "(", "[", "{"):
             if text.startswith(op, pos):
                 pos += len(op)
@@ -108,7 +115,7 @@ def parse(text):
         for p in PREFIXES:
             if text.startswith(p, pos):
                 pos += len(p)
-                return ["pre", p + (" " if p == "#^" else ""), form()]
+                return ["pre", p + (" " if p.startswith("#") else ""), form()]
         if text[pos] == '"':
             j = pos + 1
             while text[j] != '"':
@@ -236,7 +243,10 @@ class Layout:
         return len(self.lines)
 
     def emit(self, s):
-        self.lines[-1] += s
+        # an atom may hold line breaks (string literals): keep the line bookkeeping exact
+        first, *rest = s.split("\n")
+        self.lines[-1] += first
+        self.lines.extend(rest)
 
     def newline(self, indent):
         rng = self.rng
@@ -254,10 +264,10 @@ class Layout:
             return
         k = t[0]
         if k == "mark":
-            start = self.cur()
+            start, scol = self.cur(), len(self.lines[-1])
             # a marked form is spread over several lines half of the time
             self.render(t[1], indent, force=rng.random() < 0.5)
-            self.marks.append([start, self.cur()])
+            self.marks.append([start, self.cur(), scol, len(self.lines[-1])])
             return
         if k == "pre":
             self.emit(t[1])
@@ -320,7 +330,7 @@ RAISERS = [
     ("harness-call", "(BOOM $N)", "EX", "boom$N"),
     ("int-parse", "(int \"x$N\")", "ValueError", "x$N"),
 ]
-STATEMENT_RAISERS = {"raise", "raise-from", "unpack", "import", "import-from"}
+STATEMENT_RAISERS = {"raise", "raise-from", "unpack", "unpack-let", "import", "import-from"}
 
 # ---------------------------------------------------------------------------
 # hosts: (name, class tag, template) — exactly one HOLE; $1 $2 ... are replaced
@@ -348,7 +358,7 @@ for nm, tp in [
     ("or-after-stmt", "(or (do (setv t$1 0) t$1) HOLE)"), ("and-before-stmt", "(and 1 HOLE " + STMT + ")"),
     ("setv", "(setv x$1 HOLE)"), ("setv-second", "(setv x$1 1 y$1 HOLE)"), ("setx", "(setx x$1 HOLE)"),
     ("setv-first", "(setv x$1 HOLE y$1 2)"),
-    ("augassign", "(+= V HOLE)"), ("setv-subscript", "(setv (get LST 0) HOLE)"),
+    ("augassign", "(+= (get LST 0) HOLE)"), ("setv-subscript", "(setv (get LST 0) HOLE)"),
     ("setv-subscript-index", "(setv (get LST HOLE) 1)"),
     ("setv-unpack", "(setv [a$1 b$1] HOLE)"), ("setv-attr-target", "(setv (. HOLE attr$1) 1)"),
     ("let-value", "(let [a$1 HOLE] a$1)"), ("let-body", "(let [a$1 1] HOLE)"),
@@ -370,9 +380,9 @@ for nm, tp in [
     ("list", "[1 HOLE 2]"), ("tuple", "#(1 HOLE)"), ("set", "#{1 HOLE}"), ("dict-value", "{1 HOLE}"),
     ("dict-key", "{HOLE 1}"), ("list-after-stmt", "[" + STMT + " HOLE]"), ("list-unpack", "[#* HOLE]"),
     ("dict-unpack", "{#** HOLE}"), ("list-nested", "[[1 [HOLE]]]"),
-    ("while-test", "(while HOLE (break))"), ("while-body", "(while True HOLE (break))"),
-    ("while-body-last", "(while True 1 HOLE)"), ("while-else", "(while False 1 (else HOLE))"),
-    ("while-stmt-test", "(while (do (setv t$1 1) t$1) HOLE)"),
+    ("while-test", "(while HOLE (break))"), ("while-body", "(while (TICK) HOLE (break))"),
+    ("while-body-last", "(while (TICK) 1 HOLE)"), ("while-else", "(while False 1 (else HOLE))"),
+    ("while-stmt-test", "(while (do (setv t$1 (TICK)) t$1) HOLE)"),
     ("for-iter", "(for [i$1 HOLE] 1)"), ("for-body", "(for [i$1 [1 2]] 1 HOLE)"),
     ("for-else", "(for [i$1 []] 1 (else HOLE))"), ("for-second-iter", "(for [i$1 [1] j$1 HOLE] 1)"),
     ("for-if", "(for [i$1 [1] :if HOLE] 1)"), ("for-setv", "(for [i$1 [1] :setv j$1 HOLE] 1)"),
@@ -442,10 +452,10 @@ for nm, tp in [
     ("lfor-if", "(lfor x$1 [1 2] :if HOLE x$1)"), ("lfor-second-iter", "(lfor x$1 [1] y$1 HOLE y$1)"),
     ("lfor-setv", "(lfor x$1 [1] :setv y$1 HOLE y$1)"), ("sfor-elt", "(sfor x$1 [1] HOLE)"),
     ("dfor-key", "(dfor x$1 [1] HOLE 1)"), ("dfor-value", "(dfor x$1 [1] 1 HOLE)"),
-    ("gfor-elt", "(list (gfor x$1 [1] HOLE))"), ("gfor-iter", "(gfor x$1 HOLE x$1)"),
+    ("gfor-elt", "(list (gfor x$1 [1] HOLE))"), ("gfor-iter", "(list (gfor x$1 HOLE x$1))"),
     ("gfor-if", "(list (gfor x$1 [1] :if HOLE x$1))"),
     ("lfor-nested-elt", "(lfor x$1 [1] (lfor y$1 [2] HOLE))"), ("lfor-elt-call", "(lfor x$1 [1] (F x$1 HOLE))"),
-    ("lfor-unpack-target", "(lfor [x$1 y$1] [[1 2]] HOLE)"), ("dfor-unpacked-elt", "(dfor x$1 [1] #* [1 HOLE])"),
+    ("lfor-unpack-target", "(lfor [x$1 y$1] [[1 2]] HOLE)"),
 ]:
     host(nm, "comp-native", tp)
 
@@ -530,6 +540,11 @@ for nm, pre, tp in [
     host(nm, "macro-tmpl", tp, pre=pre, hole_in="pre")
 
 HOST_BY_NAME = {h["name"]: h for h in H}
+# Slots where Hy does not accept (or does not keep) a statement-producing form: assignment and
+# deletion targets are rejected with a syntax error ("Can't assign or delete a non-expression") and a
+# return annotation keeps only the expression part of its form (the statements are dropped - another
+# property's subject).  Statement raisers and statement-producing inner hosts are not placed there.
+EXPR_ONLY = {"del-sub", "setv-attr-target", "setv-subscript-index", "defn-return-annotation"}
 NONTRIVIAL_TAGS = {"fn", "class", "comp-native", "comp-fn", "macro-arg", "macro-tmpl"}
 
 
@@ -627,7 +642,7 @@ def build_program(rng, chain, raiser, mode, noise):
     text = "\n".join(lay.lines) + "\n"
     if len(lay.marks) != 1:
         raise AssertionError(f"expected one marked form, got {lay.marks} for chain {chain}")
-    return {"text": text, "span": lay.marks[0], "span_flat": span_flat, "exc": rexc, "token": token,
+    return {"text": text, "span": lay.marks[0][:2], "span_cols": lay.marks[0][2:], "span_flat": span_flat, "exc": rexc, "token": token,
             "raiser": rk, "chain": list(chain), "mode": mode, "template": in_template, "tags": tags}
 
 
@@ -645,8 +660,13 @@ def _unmark(t):
     return t
 
 
-def _chain_ok(chain):
-    """Inside a macro template only template-free hosts may appear; at most one template host."""
+def _chain_ok(chain, raiser_kind=None):
+    """Inside a macro template only template-free hosts may appear; at most one template host;
+    statement raisers stay out of the EXPR_ONLY slots (innermost host)."""
+    if raiser_kind in STATEMENT_RAISERS and chain[-1] in EXPR_ONLY:
+        return False
+    if any(name in EXPR_ONLY for name in chain[:-1]):
+        return False            # an inner host may itself produce statements
     seen_tmpl = False
     for name in chain:          # outermost first
         h = HOST_BY_NAME[name]
@@ -666,7 +686,7 @@ def cases(seed, tier, shard, nshards):
     for hi, name in enumerate(names):
         for ri, raiser in enumerate(RAISERS):
             idx += 1
-            if idx % nshards != shard:
+            if idx % nshards != shard or not _chain_ok([name], raiser[0]):
                 continue
             rng = rng_for(seed, ID, "enum", idx)
             mode = "module" if (hi + ri) % 2 else "fn"
@@ -678,9 +698,9 @@ def cases(seed, tier, shard, nshards):
         i += 1
         depth = rng.choice([1, 2, 2, 3, 3])
         chain = [rng.choice(names) for _ in range(depth)]
-        if not _chain_ok(chain):
-            continue
         raiser = rng.choice(RAISERS)
+        if not _chain_ok(chain, raiser[0]):
+            continue
         mode = rng.choice(["module", "fn"])
         yield build_program(rng, chain, raiser, mode, noise=rng.choice([0.0, 0.2, 0.4]))
 
@@ -715,7 +735,14 @@ def _env():
     def BOOM(n):
         raise EX(f"boom{n}")
 
-    return {"F": lambda *a, **k: 1, "IDENT": lambda x: x, "DECO": lambda x: (lambda f: f), "CM": CM,
+    ticks = [0]
+
+    def TICK():
+        # loop guard: true twice, then false (no generated program can loop for ever)
+        ticks[0] += 1
+        return ticks[0] <= 2
+
+    return {"TICK": TICK, "F": lambda *a, **k: 1, "IDENT": lambda x: x, "DECO": lambda x: (lambda f: f), "CM": CM,
             "EX": EX, "EOther": EOther, "BOOM": BOOM, "V": 1, "LST": [0], "PT": PT}
 
 
@@ -799,27 +826,38 @@ def run_case(case):
         classes.append("span:macro-call")
     res = {"ok": True, "nontrivial": False, "classes": classes, "events": 0}
 
-    # span from the reader, cross-checked with the layout
+    # The span: the generator's layout recorded where the form starts and ends; that region is cut
+    # out of the text and read on its own - it must be the form (this validates the layout without
+    # relying on reader positions).  The positions the reader reports for the form inside the whole
+    # program are the cross-check: a disagreement is recorded (C21's subject) but the source span
+    # is what the statement is about.
     try:
         forms = list(read_many(text, filename=fn))
         target = hy.read(case["span_flat"])
+        lines = text.split("\n")
+        s0, e0 = case["span"]
+        c0, c1 = case["span_cols"]
+        region = lines[s0 - 1:e0]
+        region[-1] = region[-1][:c1]
+        region[0] = region[0][c0:]
+        region_ok = list(read_many("\n".join(region))) == [target]
     except Exception as e:
         _bump("skip:unreadable")
         res.update(ok=None, classes=classes + ["skip:unreadable"])
         res["why"] = f"generated text unreadable: {e!r}"
         return res
+    if not region_ok:
+        _bump("skip:layout-unvalidated")
+        res.update(ok=None, classes=classes + ["skip:layout-unvalidated"])
+        return res
+    span = list(case["span"])
     found = _find_span(forms, target)
-    if len(found) != 1:
-        _bump("skip:span-form-not-unique")
-        res.update(ok=None, classes=classes + ["skip:span-form-not-unique"])
-        return res
-    span = [found[0].start_line, found[0].end_line]
-    if span != list(case["span"]):
-        # the reader and the generator disagree about where the form is: C21's subject, not decidable here
-        _bump("skip:layout-disagrees")
-        res.update(ok=None, classes=classes + ["skip:layout-disagrees"])
-        res["why"] = f"reader span {span} != layout span {case['span']}"
-        return res
+    rspan = [found[0].start_line, found[0].end_line] if len(found) == 1 else None
+    if rspan != span:
+        _bump("reader-span-differs")
+        classes.append("reader-span-differs")
+    else:
+        _bump("reader-span-agrees")
     if span[1] > span[0]:
         classes.append("raiser-multiline")
 
@@ -828,7 +866,7 @@ def run_case(case):
     if ob["phase"] != "run":
         k = "skip:compile-error" if ob["phase"] == "compile" else "skip:no-exception"
         _bump(k)
-        _bump(k + ":" + case["chain"][0] + "/" + case["raiser"])
+        _bump(k + ":" + "+".join(case["chain"]) + "/" + case["raiser"])
         res.update(ok=None, classes=classes + [k])
         res["why"] = f"{k}: {exc!r}"
         return res
@@ -874,6 +912,8 @@ def gate(tot, classes, extra, tier):
     c = extra.get("c17", {})
     seen = c.get("tracebacks", 0)
     skipped = sum(v for k, v in c.items() if k.startswith("skip:") and k.count(":") == 1)
+    if c.get("skip:layout-unvalidated"):
+        return f"layout-span-not-validated-on-{c['skip:layout-unvalidated']}-programs"
     if seen and skipped > 0.02 * (seen + skipped):
         return f"premise-failed-on-{skipped}-of-{seen + skipped}-programs"
     for need in ("tag:comp-native", "tag:comp-fn", "tag:macro-arg", "tag:macro-tmpl", "tag:fstr", "tag:match",
